@@ -252,3 +252,111 @@ Proof.
   cbn [ct_step]. unfold ct_exit. rewrite C2. cbn [current].
   destruct P2 as [c [E1 E2]]. rewrite E1. exact E2.
 Qed.
+
+(** ** frame property: a balanced run touches no node that existed before it, except that it may
+    append children to the node the cursor points at *)
+
+Definition same_but_children (c c' : call) : Prop :=
+  c_from c' = c_from c /\ c_to c' = c_to c /\ c_data c' = c_data c /\ c_value c' = c_value c /\ c_gas c' = c_gas c /\
+  c_parent c' = c_parent c /\ c_ret c' = c_ret c /\ c_rgas c' = c_rgas c /\ c_err c' = c_err c /\ c_exited c' = c_exited c.
+
+Lemma sbc_refl c : same_but_children c c.
+Proof. repeat split. Qed.
+Lemma sbc_trans a b c : same_but_children a b -> same_but_children b c -> same_but_children a c.
+Proof. unfold same_but_children. intuition congruence. Qed.
+
+Definition preserved (t t' : ct) : Prop :=
+  forall i c, nth_error (calls t) i = Some c ->
+    exists c', nth_error (calls t') i = Some c' /\ same_but_children c c' /\
+               (current t <> Some i -> c_children c' = c_children c).
+
+Lemma preserved_refl t : preserved t t.
+Proof. intros i c H. exists c. repeat split; auto. Qed.
+
+Lemma add_preserved t f to d v g : preserved t (ct_add t f to d v g).
+Proof.
+  intros i c H. unfold ct_add. cbn [calls].
+  assert (Hi : i < length (calls t)) by (apply nth_error_Some; congruence).
+  destruct (current t) as [p|] eqn:Ec.
+  - rewrite nth_error_app1 by (rewrite upd_nth_length; lia). rewrite nth_error_upd_nth.
+    destruct (Nat.eqb_spec i p) as [->|Hne].
+    + rewrite H. cbn. eexists. split; [reflexivity|]. split; [repeat split|]. intros Hc. congruence.
+    + exists c. repeat split; auto.
+  - rewrite nth_error_app1 by lia. exists c. repeat split; auto.
+Qed.
+
+(** exit only changes the result fields of the node under the cursor *)
+Lemma exit_other t rg ret err i c :
+  nth_error (calls t) i = Some c -> current t <> Some i ->
+  nth_error (calls (ct_exit t rg ret err)) i = Some c.
+Proof.
+  intros H Hc. unfold ct_exit. destruct (current t) as [k|]; [|exact H].
+  cbn [calls]. rewrite nth_error_upd_nth. destruct (Nat.eqb_spec i k) as [->|_]; [congruence|exact H].
+Qed.
+
+Lemma fold_length_ge ops : forall t, length (calls t) <= length (calls (fold_left ct_step ops t)).
+Proof.
+  induction ops as [|o ops IH]; intros t; [cbn; lia|]. cbn [fold_left].
+  etransitivity; [|apply IH]. destruct o; cbn [ct_step].
+  - unfold ct_add. cbn [calls]. rewrite app_length. destruct (current t); [rewrite upd_nth_length|]; cbn; lia.
+  - unfold ct_exit. destruct (current t); [cbn [calls]; rewrite upd_nth_length|]; lia.
+Qed.
+
+Theorem balanced_preserved ops : balanced ops -> forall t, ct_wf t -> preserved t (fold_left ct_step ops t).
+Proof.
+  induction 1 as [|f to d v g body rg ret err rest Hb IHb Hr IHr]; intros t W; [apply preserved_refl|].
+  cbn [fold_left]. rewrite fold_left_app'. cbn [fold_left].
+  set (t1 := ct_step t (CAdd f to d v g)).
+  assert (W1 : ct_wf t1) by (apply ct_add_wf; exact W).
+  set (t2 := fold_left ct_step body t1).
+  assert (W2 : ct_wf t2) by (apply ct_wf_fold; exact W1).
+  set (t3 := ct_step t2 (CExit rg ret err)).
+  assert (W3 : ct_wf t3) by (apply ct_exit_wf; exact W2).
+  assert (C1 : current t1 = Some (length (calls t))) by reflexivity.
+  assert (C2 : current t2 = Some (length (calls t))) by (subst t2; rewrite balanced_restores_cursor by assumption; exact C1).
+  assert (C3 : current t3 = current t).
+  { subst t3. cbn [ct_step]. unfold ct_exit. rewrite C2. cbn [current].
+    assert (P1 : exists c, nth_error (calls t1) (length (calls t)) = Some c /\ c_parent c = current t).
+    { subst t1. cbn [ct_step]. unfold ct_add. cbn [calls].
+      rewrite nth_error_app2 by (destruct (current t); [rewrite upd_nth_length|]; lia).
+      replace (length (calls t) - _) with 0 by (destruct (current t); [rewrite upd_nth_length|]; lia).
+      eexists; split; reflexivity. }
+    destruct (fold_parent_kept body t1 _ _ P1) as [c [E1 E2]]. fold t2 in E1. rewrite E1. exact E2. }
+  intros i c H.
+  assert (Hi : i < length (calls t)) by (apply nth_error_Some; congruence).
+  destruct (add_preserved t f to d v g i c H) as [c1 [E1 [S1 K1]]]. fold t1 in E1.
+  destruct (IHb t1 W1 i c1 E1) as [c2 [E2 [S2 K2]]]. fold t2 in E2.
+  assert (Hne : current t2 <> Some i) by (rewrite C2; intros X; inversion X; lia).
+  assert (E3 : nth_error (calls t3) i = Some c2) by (apply exit_other; assumption).
+  destruct (IHr t3 W3 i c2 E3) as [c4 [E4 [S4 K4]]].
+  exists c4. split; [exact E4|]. split; [eapply sbc_trans; [exact S1|]; eapply sbc_trans; [exact S2|exact S4]|].
+  intros Hc. rewrite K4 by (rewrite C3; exact Hc). rewrite K2 by (rewrite C1; intros X; inversion X; lia).
+  apply K1. exact Hc.
+Qed.
+
+(** the node a call adds carries the call's inputs, and — after a balanced body and the matching
+    exit — exactly the outcome handed to exit; nothing in between can alter either *)
+Theorem bracket_node t f to d v g body rg ret err :
+  ct_wf t -> balanced body ->
+  let t' := fold_left ct_step (CAdd f to d v g :: body ++ [CExit rg ret err]) t in
+  exists c, nth_error (calls t') (length (calls t)) = Some c /\
+            c_from c = f /\ c_to c = to /\ c_data c = d /\ c_value c = v /\ c_gas c = g /\ c_parent c = current t /\
+            c_ret c = ret /\ c_rgas c = rg /\ c_err c = err /\ c_exited c = true.
+Proof.
+  intros W B. cbn zeta. cbn [fold_left]. rewrite fold_left_app'. cbn [fold_left].
+  set (k := length (calls t)).
+  set (t1 := ct_step t (CAdd f to d v g)).
+  assert (W1 : ct_wf t1) by (apply ct_add_wf; exact W).
+  assert (N1 : nth_error (calls t1) k = Some {| c_from := f; c_to := to; c_data := d; c_value := v; c_gas := g; c_parent := current t;
+                c_children := []; c_ret := []; c_rgas := 0%N; c_err := None; c_exited := false |}).
+  { subst t1 k. cbn [ct_step]. unfold ct_add. cbn [calls].
+    rewrite nth_error_app2 by (destruct (current t); [rewrite upd_nth_length|]; lia).
+    replace (length (calls t) - _) with 0 by (destruct (current t); [rewrite upd_nth_length|]; lia). reflexivity. }
+  set (t2 := fold_left ct_step body t1).
+  destruct (balanced_preserved body B t1 W1 k _ N1) as [c2 [E2 [S2 _]]]. fold t2 in E2.
+  assert (C2 : current t2 = Some k) by (subst t2; rewrite balanced_restores_cursor by assumption; reflexivity).
+  cbn [ct_step]. unfold ct_exit. rewrite C2. cbn [calls].
+  rewrite nth_error_upd_nth, Nat.eqb_refl, E2. cbn [option_map].
+  eexists. split; [reflexivity|]. destruct S2 as [A1 [A2 [A3 [A4 [A5 [A6 _]]]]]]. cbn in *.
+  repeat split; assumption.
+Qed.
